@@ -48,6 +48,10 @@ type Req struct {
 	// Derive predicts, for a derived read-modify-write command, the remaining handler calls and the reply
 	// from what the first call (the read) returned.
 	Derive func(first *Call) (rest []string, reply *resp.Value)
+	// AltInt: an integer argument is spelled in a way that Go's strconv.Atoi takes for the decimal number (leading
+	// zeros, a plus sign) but a stricter server may refuse: the request is either executed with exactly that number
+	// or refused with an error reply and no handler call
+	AltInt bool
 }
 
 // Commands lists every command name the framework registers.
@@ -67,10 +71,13 @@ type Gen struct {
 	Binary   bool // binary / hostile argument bytes
 	CaseVary bool // vary letter case of command and option names
 	NoSystem bool // exclude AUTH/SELECT/QUIT/CONFIG
-	Only     []string
-	Prefix   string // per-connection key prefix
-	idx      int
-	args     []string
+	// AltSpellings: integer arguments are sometimes spelled with leading zeros or a plus sign (Req.AltInt)
+	AltSpellings bool
+	altInt       bool
+	Only         []string
+	Prefix       string // per-connection key prefix
+	idx          int
+	args         []string
 }
 
 func (g *Gen) d(n int, l string) int { return g.T.Draw(n, l) }
@@ -131,6 +138,29 @@ func (g *Gen) member() string {
 }
 
 var intPool = []int{0, 1, -1, 2, 5, 10, -2, 100, -100, 65536, math.MaxInt32, math.MinInt32, math.MaxInt64, math.MinInt64}
+
+// itoa spells an integer argument: decimal, or (one in sixteen, with AltSpellings) with leading zeros or a plus sign.
+func (g *Gen) itoa(n int) string {
+	s := strconv.Itoa(n)
+	if !g.AltSpellings || g.d(16, "intspelling") != 15 {
+		return s
+	}
+	g.altInt = true
+	sign, digits := "", s
+	if n < 0 {
+		sign, digits = "-", s[1:]
+	}
+	switch g.d(3, "intspellingkind") {
+	case 0:
+		return sign + "0" + digits
+	case 1:
+		return sign + "00" + digits
+	}
+	if n >= 0 {
+		return "+" + digits
+	}
+	return sign + "0" + digits
+}
 
 func (g *Gen) integer() int { return intPool[g.d(len(intPool), "int")] }
 
@@ -226,7 +256,9 @@ func (g *Gen) Next(idx int, illShare int, unkShare int) *Req {
 		}
 		break
 	}
+	g.altInt = false
 	g.valid(r, name)
+	r.AltInt = g.altInt
 	r.Class = "valid"
 	if roll < illShare {
 		g.spoil(r)
@@ -327,7 +359,7 @@ func (g *Gen) valid(r *Req, name string) {
 		r.Expect = one(map[string]string{"DEL": "Del", "EXISTS": "Exists"}[name] + " " + qs(ks))
 	case "EXPIRE", "EXPIREAT":
 		ttl := []int{1, 0, 10, 3600, -1, 1000000000, 86400 * 365}[g.d(7, "ttl")]
-		a = append(a, k, strconv.Itoa(ttl))
+		a = append(a, k, g.itoa(ttl))
 		o := redis.ExpireOption{}
 		if f := g.d(5, "expflag"); f > 0 {
 			fl := []string{"", "NX", "XX", "GT", "LT"}[f]
@@ -367,7 +399,7 @@ func (g *Gen) valid(r *Req, name string) {
 		r.Expect = one(fmt.Sprintf("Rename %s %s NX=%t", q(k), q(nk), name == "RENAMENX"))
 	case "SCAN":
 		cur := []int{0, 1, 17, 1000}[g.d(4, "cursor")]
-		a = append(a, strconv.Itoa(cur))
+		a = append(a, g.itoa(cur))
 		cnt := 10
 		for _, o := range g.perm2("scanopt") {
 			switch o {
@@ -377,7 +409,7 @@ func (g *Gen) valid(r *Req, name string) {
 				r.Pattern, r.HasPat = p, true
 			case 1:
 				cnt = []int{1, 10, 100, 5}[g.d(4, "count")]
-				a = append(a, g.cs("COUNT"), strconv.Itoa(cnt))
+				a = append(a, g.cs("COUNT"), g.itoa(cnt))
 			}
 		}
 		pat := "*"
@@ -410,16 +442,16 @@ func (g *Gen) valid(r *Req, name string) {
 				n := []int{1, 10, 1000, 86400, 2000000000}[g.d(5, "exval")]
 				switch g.d(6, "ex") {
 				case 1:
-					a = append(a, g.cs("EX"), strconv.Itoa(n))
+					a = append(a, g.cs("EX"), g.itoa(n))
 					o.EX = time.Duration(n) * time.Second
 				case 2:
-					a = append(a, g.cs("PX"), strconv.Itoa(n))
+					a = append(a, g.cs("PX"), g.itoa(n))
 					o.PX = time.Duration(n) * time.Millisecond
 				case 3:
-					a = append(a, g.cs("EXAT"), strconv.Itoa(n))
+					a = append(a, g.cs("EXAT"), g.itoa(n))
 					o.EXAT = time.Unix(int64(n), 0)
 				case 4:
-					a = append(a, g.cs("PXAT"), strconv.Itoa(n))
+					a = append(a, g.cs("PXAT"), g.itoa(n))
 					o.PXAT = time.UnixMilli(int64(n))
 				case 5:
 					a = append(a, g.cs("KEEPTTL"))
@@ -436,7 +468,7 @@ func (g *Gen) valid(r *Req, name string) {
 	case "SETEX":
 		v := g.val()
 		n := []int{1, 10, 1000, 86400}[g.d(4, "exval")]
-		a = append(a, k, strconv.Itoa(n), v)
+		a = append(a, k, g.itoa(n), v)
 		r.Expect = one("Set " + SigSet(k, v, redis.SetOption{EX: time.Duration(n) * time.Second}))
 	case "GETSET":
 		v := g.val()
@@ -521,7 +553,7 @@ func (g *Gen) valid(r *Req, name string) {
 		r.Expect = one(fmt.Sprintf("HSet %s %s %s NX=%t", q(k), q(f), q(v), name == "HSETNX"))
 	case "LINDEX":
 		i := g.integer()
-		a = append(a, k, strconv.Itoa(i))
+		a = append(a, k, g.itoa(i))
 		r.Expect = one(fmt.Sprintf("LIndex %s %d", q(k), i))
 	case "LPOP", "RPOP":
 		m := map[string]string{"LPOP": "LPop", "RPOP": "RPop"}[name]
@@ -529,7 +561,7 @@ func (g *Gen) valid(r *Req, name string) {
 		cnt := 1
 		if g.d(2, "popcnt") == 1 {
 			cnt = []int{1, 2, 5, 0, 100}[g.d(5, "cnt")]
-			a = append(a, strconv.Itoa(cnt))
+			a = append(a, g.itoa(cnt))
 		}
 		r.Expect = one(fmt.Sprintf("%s %s %d", m, q(k), cnt))
 	case "LPUSH", "LPUSHX", "RPUSH", "RPUSHX":
@@ -542,7 +574,7 @@ func (g *Gen) valid(r *Req, name string) {
 		r.Expect = one(fmt.Sprintf("%s %s %s X=%t", m, q(k), qs(es), strings.HasSuffix(name, "X")))
 	case "LRANGE":
 		s, e := g.integer(), g.integer()
-		a = append(a, k, strconv.Itoa(s), strconv.Itoa(e))
+		a = append(a, k, g.itoa(s), g.itoa(e))
 		r.Expect = one(fmt.Sprintf("LRange %s %d %d", q(k), s, e))
 	case "SADD", "SREM", "ZREM":
 		ms := g.list(4, g.member)
@@ -601,7 +633,7 @@ func (g *Gen) valid(r *Req, name string) {
 		o := defZRange()
 		if g.d(2, "byscore") == 0 {
 			s, e := g.smallInt(), g.smallInt()
-			a = append(a, k, strconv.Itoa(s), strconv.Itoa(e))
+			a = append(a, k, g.itoa(s), g.itoa(e))
 			for _, grp := range g.perm2("zropt") {
 				switch grp {
 				case 0:
@@ -627,7 +659,7 @@ func (g *Gen) valid(r *Req, name string) {
 			opts := [][]string{{g.cs("BYSCORE")}}
 			if g.d(2, "limit") == 1 {
 				off, cnt := []int{0, 1, 5}[g.d(3, "off")], []int{1, 10, -1, 0}[g.d(4, "lcnt")]
-				opts = append(opts, []string{g.cs("LIMIT"), strconv.Itoa(off), strconv.Itoa(cnt)})
+				opts = append(opts, []string{g.cs("LIMIT"), g.itoa(off), g.itoa(cnt)})
 				o.Offset, o.Count = off, cnt
 			}
 			if g.d(2, "ws") == 1 {
@@ -660,7 +692,7 @@ func (g *Gen) valid(r *Req, name string) {
 			case 1:
 				if g.d(2, "limit") == 1 {
 					off, cnt := []int{0, 1, 5}[g.d(3, "off")], []int{1, 10, -1, 0}[g.d(4, "lcnt")]
-					a = append(a, g.cs("LIMIT"), strconv.Itoa(off), strconv.Itoa(cnt))
+					a = append(a, g.cs("LIMIT"), g.itoa(off), g.itoa(cnt))
 					o.Offset, o.Count = off, cnt
 				}
 			}
@@ -675,7 +707,7 @@ func (g *Gen) valid(r *Req, name string) {
 		r.Mode = Sugar
 		r.ReplyOf = nil
 		s, e := g.integer(), g.integer()
-		a = append(a, k, strconv.Itoa(s), strconv.Itoa(e))
+		a = append(a, k, g.itoa(s), g.itoa(e))
 		o := defZRange()
 		if g.d(2, "ws") == 1 {
 			a = append(a, g.cs("WITHSCORES"))
@@ -715,7 +747,7 @@ func (g *Gen) valid(r *Req, name string) {
 		a = append(a, k)
 		if strings.HasSuffix(name, "BY") {
 			delta = []int{1, 0, -1, 5, 1000}[g.d(5, "by")]
-			a = append(a, strconv.Itoa(delta))
+			a = append(a, g.itoa(delta))
 		}
 		if strings.HasPrefix(name, "DECR") {
 			delta = -delta
@@ -736,7 +768,7 @@ func (g *Gen) valid(r *Req, name string) {
 	case "GETRANGE", "SUBSTR":
 		r.Mode = Sugar
 		r.ReplyOf = nil
-		a = append(a, k, strconv.Itoa(g.d(12, "gs")-4), strconv.Itoa(g.d(12, "ge")-4))
+		a = append(a, k, g.itoa(g.d(12, "gs")-4), g.itoa(g.d(12, "ge")-4))
 		r.Expect = one("Get " + q(k))
 	case "HEXISTS", "HSTRLEN":
 		r.Mode = Sugar
